@@ -58,7 +58,7 @@ def confirm(seed):
         shutil.rmtree(SCRATCH, ignore_errors=True)
     return res
 
-SRC = "/tmp/seedcheck-src"
+SRC = os.environ.get("SEED_SRC", "/tmp/seedcheck-src")
 
 def detect(seed, checks):
     """Run the snapshot harness (whose path dependency points at SRC, a scratch worktree of /repo
@@ -79,7 +79,7 @@ def detect(seed, checks):
         run(f"git -C {SRC} checkout -- .")
     return results
 
-SNAP = "/tmp/seedcheck-verif"
+SNAP = os.environ.get("SEED_SNAP", "/tmp/seedcheck-verif")
 
 def prepare():
     os.makedirs(SNAP, exist_ok=True)
@@ -96,6 +96,24 @@ def prepare():
 def main():
     if sys.argv[1] == "--prepare":
         prepare()
+        return
+    if sys.argv[1] == "--benign":
+        # a behaviour-preserving variant: no confirmation step, every check must stay silent
+        patch_dir, vid = sys.argv[2], sys.argv[3]
+        checks = [f"C{n:02d}" for n in range(1, 21)]
+        if not os.path.exists(f"{SNAP}/check"):
+            prepare()
+        rc, out = run(f"git -C {SRC} checkout -- . && git -C {SRC} apply {patch_dir}/patch.diff && cd {SRC} && cargo test --offline 2>&1 | grep 'test result' | head -1", env={"CARGO_TARGET_DIR": TARGET})
+        suite = out.strip()
+        det = detect(patch_dir, checks)
+        alarms = {c: r for c, r in det.items() if isinstance(r, dict) and r.get("exit") != 0}
+        dest = f"{VERIF}/benign/{vid}"
+        os.makedirs(dest, exist_ok=True)
+        shutil.copy(f"{patch_dir}/patch.diff", f"{dest}/patch.diff")
+        if os.path.exists(f"{patch_dir}/note.md"):
+            shutil.copy(f"{patch_dir}/note.md", f"{dest}/note.md")
+        json.dump({"variant": vid, "suite": suite, "detection": det, "alarms": sorted(alarms)}, open(f"{dest}/meta.json", "w"), indent=1)
+        print(vid, "suite:", suite, "ALARMS:", {c: r.get("signatures") for c, r in alarms.items()})
         return
     seed, sid = sys.argv[1], sys.argv[2]
     checks = [f"C{n:02d}" for n in range(1, 21)]
